@@ -218,3 +218,8 @@ def inverse_family(w, seed, spec):
     if len(fails) < 5:
         fails += lazy_solve(w, seed, spec)
     return fails[:8]
+
+
+def threads(w, seed, spec):
+    """name used by the helper shared with C19 (props/C19.the_var) for its module-state obligation"""
+    return lazy_solve(w, seed, spec)
